@@ -98,6 +98,11 @@ def synapse_component(sname, delay):
         sel = torch.full((x.shape[0], 2), float(delay))
         obs["current_at_max"] = s.current_at(sel)
         obs["spike_at_max"] = s.spike_at(sel)
+        # per-sample selectors (legal under the documented shape): each sample asks for the maximum delay where it just received
+        # a spike and for the present value elsewhere, so whole rows of zeros sit next to delayed rows in one call
+        own = x.to(torch.float32).reshape(x.shape[0], 2) * float(delay)
+        obs["current_at_own"] = s.current_at(own)
+        obs["spike_at_own"] = s.spike_at(own)
         for nm in ("spike_", "current_", "pos_current_", "neg_current_"):
             rt = getattr(s, nm, None)
             if rt is not None and hasattr(rt, "recordsz"):
